@@ -7,7 +7,8 @@ PROP = {'streams': [('c13', 2000, 60000)],
          'and .partial() stores; per case 3 (quick) / 8 (thorough) substitutions of values of the declared kinds; each substitution: reauthorize '
          '(store with unknown attributes kept, and substituted) vs fresh concrete is_authorized vs model; non-trivial = at least one residual '
          'policy; distinct by canonical request+policies',
- 'theorems': ['table_sound', 'pinterp_sound_partial', 'reauthorize_eq_fresh', 'reauthorize_eq_fresh_frag'],
+ 'theorems': ['table_sound', 'pinterp_sound_partial', 'callDRT_every', 'drt_of_canon', 'pinterp_sound_subst', 'pinterp_sound_partial2',
+              'pinterpSoundFull_needs_cover', 'reauthorize_eq_fresh', 'reauthorize_eq_fresh_frag', 'reauthorize_eq_fresh_frag2'],
  'assumptions': ["error classes are not compared between residual evaluation and concrete evaluation (the property says 'errors')",
                  'unknowns created by a partial store for missing entities are substituted by the entity itself; the completed store is the full '
                  'store',
@@ -17,9 +18,15 @@ PROP = {'streams': [('c13', 2000, 60000)],
 
 TEXT = ('Lean theorems over the mirror of partial_interpret (residual arms, best-effort fall-back, projectable records, typed-unknown short circuits, '
  'partial stores, unknown(), split, unknowns mapper), PartialResponse (decision table, may/must determining, reauthorize, concretize_request): '
- 'table_sound (full: every completion of the residual policies), pinterp_sound_partial (fragment, by induction: all unary and binary operators incl. in/getTag/hasTag on a complete store, set and record constructors and extension-function calls with the split semantics, attribute access (not directly on a record constructor), like, is), reauthorize_eq_fresh (given '
- 'residual soundness); tied to the code by a differential run (partial observable and reauthorized responses), plus the statement itself evaluated '
- 'on the implementation for sampled substitutions.',
- 'proof over a hand-written model; pinterp soundness is proved on a fragment (full statement kept as a Prop; missing: ./has directly on a record constructor, the '
- 'print/parse round trip of the extension constructors (side condition CallDRT), unknowns in the policy text, residual contexts, partial stores); correspondence sampled '
- '(harness/src/c13.rs); residual shapes never compared')
+ 'table_sound (full: every completion of the residual policies); pinterp_sound_subst (the evaluate-after-substitute form, by induction on the '
+ 'recursion budget, on the fragment Frag2: unknown nodes in the expression, all unary and binary operators incl. in/getTag/hasTag on a complete '
+ 'store, ./has on anything incl. record constructors (projection arm of get_attr re-interpreting a residual component), like, is, set and record '
+ 'constructors with the split semantics, every extension function — the print/parse round trip of the canonical constructor call is proved for '
+ 'decimal, ip (v4 and v6), datetime, duration: callDRT_every); pinterp_sound_partial / pinterp_sound_partial2 (the reauthorize form: the '
+ 'residual re-interpreted with the mapper on the concretised request); reauthorize_eq_fresh (given residual soundness) and '
+ 'reauthorize_eq_fresh_frag / _frag2 (composed, no soundness hypothesis); pinterpSoundFull_needs_cover (the full statement needs a substitution '
+ 'that defines every typed unknown); tied to the code by a differential run (partial observable and reauthorized responses), plus the statement '
+ 'itself evaluated on the implementation for sampled substitutions.',
+ 'proof over a hand-written model; pinterp soundness is proved on a fragment (full statement kept as a Prop; missing: residual contexts, unknown '
+ 'attribute/tag values in entities, .partial() stores, calls of unknown() in the policy text; record constructors are assumed to have distinct '
+ 'keys and values to be canonical as Rust holds them); correspondence sampled (harness/src/c13.rs); residual shapes never compared')
